@@ -16,14 +16,17 @@ case "$ID" in
 esac
 cd "$ROOT/harness"
 if [ "$MODE" = overlay ]; then
+  # instrumented build: sync->vsync shim, tracked spawns, bbolt storage-write fault points; generated from
+  # the current tree on every invocation, nothing in /repo is touched
   BIN="$ROOT/.build/vcheck-i"
   OVDIR="$ROOT/.build/overlay"
   rm -rf "$OVDIR"; mkdir -p "$OVDIR"
-  if ! go run ./tools/mkoverlay -repo /repo -out "$OVDIR" > "$ROOT/.build/mkoverlay.log" 2>&1; then
+  BBOLT="$(go list -m -f '{{.Dir}}' go.etcd.io/bbolt 2>/dev/null)"
+  if ! go run ./tools/mkoverlay -repo /repo -out "$OVDIR" -bbolt "$BBOLT" > "$ROOT/.build/mkoverlay.log" 2>&1; then
     cat "$ROOT/.build/mkoverlay.log"
     echo "ERROR: overlay generation failed (harness problem, not a verdict)"; exit 2
   fi
-  if ! go build -overlay "$OVDIR/overlay.json" -o "$BIN" ./cmd/vcheck 2> "$ROOT/.build/build.log"; then
+  if ! GODEBUG=goindex=0 go build -overlay "$OVDIR/overlay.json" -o "$BIN" ./cmd/vcheck 2> "$ROOT/.build/build.log"; then
     cat "$ROOT/.build/build.log"; echo "ERROR: build failed"; exit 2
   fi
 else
